@@ -1,5 +1,6 @@
 import QVerif.Model.Pipeline
 import QVerif.Lemmas.PipelineStates
+import QVerif.Lemmas.Cvar
 
 /-!
 # C03 — circuit evaluators return the true objective through every primitive wrapper
@@ -82,6 +83,76 @@ theorem estimator_evaluate_at {Circ Obs Par} (e : EstimatorEval Circ Obs) (ideal
   have hz : (circuits.zip params)[i]? = some (circuits[i], params[i]) :=
     List.getElem?_zip_eq_some.mpr ⟨List.getElem?_eq_getElem h1, List.getElem?_eq_getElem h2⟩
   simp [List.getElem?_map, hz]
+
+/-! ### Shot counts travel with the pubs: the distribution handed to the aggregation is a probability distribution -/
+
+theorem quasi_nonneg (f : Bits → Rat) (shots : Nat) (c : Counts) : QVerif.Cvar.NonnegProbs (quasi f shots c) := by
+  intro x hx
+  simp only [quasi, List.mem_map] at hx
+  obtain ⟨e, _, rfl⟩ := hx
+  simp only
+  rw [Rat.div_def]
+  have h1 : (0 : Rat) ≤ ((e.2 : Nat) : Rat) := by exact_mod_cast Nat.zero_le _
+  have h2 : (0 : Rat) ≤ ((shots : Nat) : Rat)⁻¹ := by
+    rcases Nat.eq_zero_or_pos shots with h | h
+    · subst h; simp
+    · exact Rat.le_of_lt (Rat.inv_pos.mpr (by exact_mod_cast h))
+  exact Rat.mul_nonneg h1 h2
+
+theorem quasi_mass_eq (f : Bits → Rat) (shots : Nat) : ∀ c : Counts,
+    QVerif.Cvar.mass (quasi f shots c) = ((countsTotal c : Nat) : Rat) / (shots : Rat)
+  | [] => by simp [quasi, QVerif.Cvar.mass, countsTotal, Rat.div_def]
+  | e :: c => by
+      have ih := quasi_mass_eq f shots c
+      simp only [quasi, List.map_cons, QVerif.Cvar.mass, countsTotal, List.sum_cons] at ih ⊢
+      rw [ih]
+      push_cast
+      rw [Rat.div_def, Rat.div_def, Rat.div_def, Rat.add_mul]
+
+/-- counts that add up to the divisor give total probability one -/
+theorem quasi_mass_one (f : Bits → Rat) (shots : Nat) (c : Counts) (h : countsTotal c = shots) (h0 : 0 < shots) :
+    QVerif.Cvar.mass (quasi f shots c) = 1 := by
+  rw [quasi_mass_eq, h]
+  have : ((shots : Nat) : Rat) ≠ 0 := by exact_mod_cast Nat.pos_iff_ne_zero.mp h0
+  rw [Rat.div_def]
+  exact Rat.mul_inv_cancel _ this
+
+/-- **Through every stack of wrappers that hands each pub on with its own shot count, value `i` is the aggregation of a
+probability distribution** (non-negative, total mass one — the hypotheses of the C14 theorems): the counts of pub `i` as
+an ideal sampler that honours the pub's shots returns them, divided by the evaluator's shots.  Holds whatever other
+callers, with whatever shot counts, share the batch. -/
+theorem sampler_evaluateS_spec {Circ Par} (e : SamplerEval Circ Par) (ideal : SPub Circ Par → Counts)
+    (hshots : ∀ p, countsTotal (ideal p) = p.2.2) (h0 : 0 < e.shots)
+    (P : Prim (SPub Circ Par) Counts) (hP : Pointwise P ideal) (s : Stack (SPub Circ Par)) (hs : s.Sound ideal)
+    (circuits : List Circ) (params : List Par) :
+    e.evaluateS (s.wrap P) circuits params =
+      (circuits.zip params).map (fun cp => QVerif.Cvar.getExpectation (quasi e.f e.shots (ideal (e.prep cp.1, cp.2, e.shots))) e.alpha) ∧
+    ∀ cp ∈ circuits.zip params,
+      QVerif.Cvar.NonnegProbs (quasi e.f e.shots (ideal (e.prep cp.1, cp.2, e.shots))) ∧
+      QVerif.Cvar.mass (quasi e.f e.shots (ideal (e.prep cp.1, cp.2, e.shots))) = 1 := by
+  constructor
+  · unfold SamplerEval.evaluateS
+    simp only []
+    rw [stack_pointwise ideal P hP s hs]
+    simp [List.zip_map_left, List.map_map]
+  · intro cp _
+    exact ⟨quasi_nonneg _ _ _, quasi_mass_one _ _ _ (hshots _) h0⟩
+
+/-- the coerced-pub transpiling wrapper keeps parameter values and shots: sound when the pass manager preserves the
+measured statistics -/
+theorem transpileSPub_sound {Circ Par} (pm : Circ → Circ) (ideal : SPub Circ Par → Counts)
+    (hpm : ∀ c p n, ideal (pm c, p, n) = ideal (c, p, n)) : ∀ p, ideal (transpileSPub pm p) = ideal p :=
+  fun p => hpm p.1 p.2.1 p.2.2
+
+/-- witness (seeded change C03e): handing a batch on with ONE shot count is not a sound rewriting for a sampler that
+honours shots — a pub of an evaluator with 4 shots answered with 8 counts yields total "probability" 2 -/
+theorem override_shots_is_wrong :
+    let ideal : SPub Unit Unit → Counts := fun p => [([false], p.2.2)]
+    (∀ p, countsTotal (ideal p) = p.2.2) ∧
+    QVerif.Cvar.mass (quasi (fun _ => 1) 4 (ideal (overrideShots 8 ((), (), 4)))) = 2 := by
+  constructor
+  · intro p; simp [countsTotal]
+  · decide +kernel
 
 /-- the transpiling sampler wrapper is sound when the pass manager preserves the measured statistics -/
 theorem transpileSampler_sound {Circ Par} (pm : Circ → Circ) (ideal : Circ × Par → Counts)
